@@ -116,9 +116,10 @@ Proof.
   - (* helper *)
     destruct (Nat.eq_dec t 0) as [->|Hn].
     + destruct (si_h _ _ _ _ I) as [D HD].
-      apply splith_step with c D; auto; try lia.
-      intros Hph. apply drained_input with 0; auto. apply (si_f _ _ _ _ I).
-      apply (si_ch _ _ _ _ I 0). lia.
+      destruct (splith_step vs k c 0 c' D) as (D' & _ & HD'); auto; try lia.
+      * intros Hph. apply drained_input with 1 0; auto. apply (si_f _ _ _ _ I).
+        apply (si_ch _ _ _ _ I 0). lia.
+      * now exists D'.
     + rewrite Hother by auto. destruct (si_h _ _ _ _ I) as [D HD]. exists D.
       apply splith_frame with (qpop (getq c 0)) (qclosed (getq c 0)) (view_app c) (view_cl c).
       * exact HD.
